@@ -41,7 +41,7 @@ def _interface(fs, pts, first_id=0):
     return be, vs
 
 
-def _arc(env, n, ccw, free=False):
+def _arc(env, n, ccw, free=False, radius=None):
     """n points on a circle; returns (points, unit vectors, centre, radius)."""
     cs = [env.unit(f"p{i}") for i in range(n)]
     for i in range(n - 1):
@@ -52,15 +52,18 @@ def _arc(env, n, ccw, free=False):
     if free:
         ox, oy, r = env.real("ox"), env.real("oy"), env.real("r")
         env.assume(r > 0)
+    elif radius is not None:
+        from fractions import Fraction
+        ox, oy, r = 0, 0, (Fraction(radius).limit_denominator(10 ** 12) if env.mode == "sym" else float(radius))
     else:
         ox, oy, r = 0, 0, 1
     pts = [(ox + r * c, oy + r * s) for c, s in cs]
     return pts, cs, (ox, oy), r
 
 
-def tangent(env, n, ccw, end, fit, free=False):
+def tangent(env, n, ccw, end, fit, free=False, radius=None):
     import forsys as fs
-    pts, cs, (ox, oy), r = _arc(env, n, ccw, free)
+    pts, cs, (ox, oy), r = _arc(env, n, ccw, free, radius)
     be, vs = _interface(fs, pts)
     stubs.register_circle(vs, ox, oy, r)
     if end == "first":
@@ -211,6 +214,10 @@ def jobs(tier):
                 for fit in ("dlite", "taubinSVD"):
                     js.append(Job(f"tangent-n{n}-{'ccw' if ccw else 'cw'}-{end}-{fit}", "c02:tangent",
                                   dict(n=n, ccw=ccw, end=end, fit=fit), budget_s=300))
+    # the same arc in a tiny / huge length unit (concrete radius): tangents are scale free
+    for radius in (1e-7, 1e5):
+        js.append(Job(f"tangent-n3-ccw-first-dlite-radius={radius}", "c02:tangent", dict(n=3, ccw=True, end="first", fit="dlite", radius=radius),
+                      budget_s=300))
     for fit in ("dlite", "taubinSVD"):
         for end in ("first", "last"):
             js.append(Job(f"two-point-{fit}-{end}", "c02:two_point", dict(fit=fit, end=end), budget_s=300))
